@@ -203,6 +203,70 @@ def multi_record(recipe, sim_seed, with_codegen=False, fixed=False):
     return rec
 
 
+def _alt_programs(family):
+    """(valid program P, same-shaped rival Q) over symbolic shapes; Q may be
+    ill-formed (pytato refuses it): it is only built and thrown away"""
+    import pytato as pt
+    n = pt.make_size_param("n")
+    x = pt.make_placeholder("x", (n,), np.float64)
+    y = pt.make_placeholder("y", (n,), np.float64)
+    z = pt.make_placeholder("z", (n, 3), np.float64)
+    # (pytato supports strided whole-axis slices of symbolic axes only)
+    if family == 0:
+        return (lambda: x[::2] + y[::2]), (lambda: x[::2] + y[::3])
+    if family == 1:
+        return (lambda: z[::2] * z[::2] + 1), (lambda: z[::2] * z[::3] + 1)
+    if family == 2:
+        return (lambda: (x[::2] - y[::2]) * x[::2]), \
+            (lambda: (x[::2] - y[::3]) * x[::2])
+    return (lambda: pt.where(pt.greater(x[::3], y[::3]), x[::3], y[::3])), \
+        (lambda: pt.where(pt.greater(x[::3], y[::2]), x[::3], y[::3]))
+
+
+def alternation_record(family, rounds):
+    """The text generated for a FIXED program, regenerated `rounds` times while
+    same-shaped rival graphs over the same symbolic shapes are built and thrown
+    away in between (so that object addresses are recycled): every text must
+    be the first text.  Python target every round (cheap), loopy every 25th."""
+    import pytato as pt
+    from pytato.target.python.numpy_like import generate_numpy_like
+    mk_p, mk_q = _alt_programs(family)
+
+    def text(with_loopy):
+        out = pt.transform.deduplicate(
+            pt.make_dict_of_named_arrays({"out": mk_p()}))
+        t = generate_numpy_like(out, target=_numpy_target(),
+                                function_name="_pt_kernel", show_code=False,
+                                entrypoint_decorators=(),
+                                extra_preambles=()).program
+        if with_loopy:
+            t += "\n" + dump_kernel(pt.generate_loopy(out).program)
+        return t
+    try:
+        first_py = text(False)
+        first_lp = text(True)
+    except Exception as e:  # noqa: BLE001
+        return {"alt": "ERR baseline " + type(e).__name__}
+    rec = {"alt_first": hashlib.sha256(first_lp.encode()).hexdigest()[:16],
+           "alt": "stable"}
+    for t in range(rounds):
+        try:
+            q = mk_q()
+            del q
+        except Exception:  # noqa: BLE001
+            pass
+        try:
+            with_lp = t % 25 == 24
+            now = text(with_lp)
+        except Exception as e:  # noqa: BLE001
+            rec["alt"] = f"round {t}: {type(e).__name__} instead of the text"
+            break
+        if now != (first_lp if with_lp else first_py):
+            rec["alt"] = f"round {t}: another text"
+            break
+    return rec
+
+
 def fingerprint():
     """how this interpreter differs from its siblings: iteration orders of probe
     sets and the addresses of fresh objects"""
